@@ -2,8 +2,10 @@
    all but the last - read with recv_multipart() or frame by frame, whatever else happens on the socket; a message
    with more frames than supported is refused with an error or closes the connection: no panic, no truncation.
 
-   The faithful models violate this in the classes named `_refuted` below (each is a finding demonstrated against
-   the real code by the correspondence run); the property is proved outside those classes. *)
+   The models are those of the code after the repairs of findings 1 (deregister_pipe cleared the cache), 2
+   (DEALER/ROUTER recv_multipart ignored frame_recv_buffer) and 4 (ROUTER send_multipart kept the application's
+   flags); their former witnesses are kept as `_witness` theorems and now deliver whole.  The classes that still
+   fail are named `_refuted` (each is a known finding demonstrated against the real code by the correspondence run). *)
 From RZ Require Import Base.Prelude Base.Stepper Model.Codec Proofs.CodecProofs Model.Engine Proofs.EngineProofs
   Proofs.EngineLimit Model.RouterMap Model.Envelope Model.FrameBatch Model.SendFlags Model.Ingress
   Model.Balancer Proofs.FrameBatchProofs Proofs.EnvelopeProofs Proofs.SendFlagsProofs Proofs.IngressProofs Proofs.WireBridge.
@@ -11,15 +13,20 @@ Local Open Scope N_scope.
 
 (* ================================================================ receiving side *)
 (* PULL / SUB (AnonymousIngressEngine), for EVERY queue discipline `qo` and every history mixing Recv and
-   RecvMultipart with Enqueue / Register / Deregister / Close of any pipe: as long as no Deregister / Close happens
-   while a message is half read (`no_drop`), everything returned, followed by what is still cached, is exactly the
-   concatenation of the batches taken off the queue - frames adjacent, in order, flags untouched - and no call panics. *)
+   RecvMultipart with Enqueue / Register / Deregister of any pipe (the socket itself is not closed meanwhile):
+   everything returned, followed by what is still cached, is exactly the concatenation of the batches taken off the
+   queue - frames adjacent, in order, flags untouched - and no call panics. *)
 Theorem C02_recv_contiguous : forall (Q : Type) (qo : qops Q) os st st' es,
+  anon_run qo os st = (st', es) -> cache_inv (snd st) -> no_close os -> Forall good (popped es) ->
+  cache_frames (snd st) ++ popped_frames es = returned es ++ cache_frames (snd st') /\ has_panic es = false.
+Proof. exact @anon_accounting_open. Qed.
+(* with close() in the history: the same, as long as the socket is not closed in the middle of a message *)
+Theorem C02_recv_contiguous_until_close : forall (Q : Type) (qo : qops Q) os st st' es,
   anon_run qo os st = (st', es) -> cache_inv (snd st) -> no_drop qo os st = true -> Forall good (popped es) ->
   cache_frames (snd st) ++ popped_frames es = returned es ++ cache_frames (snd st') /\ has_panic es = false.
 Proof. exact @anon_accounting. Qed.
 
-(* histories that only use recv_multipart are immune to attach / detach / close: every result is one whole batch *)
+(* histories that only use recv_multipart: every result is one whole batch *)
 Theorem C02_recv_multipart_only : forall (Q : Type) (qo : qops Q) os q st' es,
   anon_run qo os (q, None) = (st', es) -> no_recv os ->
   snd st' = None /\ returned es = popped_frames es /\ has_panic es = false /\
@@ -27,38 +34,40 @@ Theorem C02_recv_multipart_only : forall (Q : Type) (qo : qops Q) os q st' es,
                               | EvRet (RBatch _) None => False | _ => True end) es.
 Proof. exact @anon_multipart_only. Qed.
 
-(* mixed style on PULL / SUB is sound: recv_multipart after some recv()s returns the whole unread remainder *)
+(* mixed style on PULL / SUB: recv_multipart after some recv()s returns the whole unread remainder *)
 Theorem C02_recv_multipart_remainder : forall (Q : Type) (qo : qops Q) (q : Q) (d : list frame),
   d <> [] -> more_ok d -> (length d <= 255)%nat ->
   anon_recv_multipart qo (q, Some d) = ((q, None), EvRet (RBatch d) None).
 Proof. exact @anon_recv_multipart_remainder. Qed.
 
-(* the failing class: deregister_pipe of ANY pipe (and close) forgets the unread frames ... *)
-Theorem C02_deregister_discards_half_read : forall (Q : Type) (qo : qops Q) (q : Q) c p,
-  anon_step qo (ODeregister p) (q, c) = ((qo_dereg qo p q, None), EvUnit).
-Proof. exact @anon_deregister_discards. Qed.
-(* ... witness: peer 1 sent A = [10+M, 11+M, 12]; the application read 10; idle peer 3 detaches; 11 and 12 are gone *)
-Theorem C02_recv_contiguous_refuted_deregister :
+(* a peer detaching leaves the half-read message alone (repaired finding 1) ... *)
+Theorem C02_deregister_keeps_half_read : forall (Q : Type) (qo : qops Q) (q : Q) c p,
+  anon_step qo (ODeregister p) (q, c) = ((qo_dereg qo p q, c), EvUnit).
+Proof. exact @anon_deregister_keeps. Qed.
+(* ... its former witness: peer 1 sent A = [10+M, 11+M, 12]; the application read 10; idle peer 3 detaches;
+   11 and 12 are still delivered, then B *)
+Theorem C02_recv_contiguous_deregister_witness :
   let '(st', es) := anon_run rpq_ops wit_deregister (q_new, None) in
   popped_frames es = [fr true 10; fr true 11; fr false 12; fr false 20] /\
-  returned es = [fr true 10; fr false 20] /\ cache_frames (snd st') = [] /\
-  no_drop rpq_ops wit_deregister (q_new, None) = false.
-Proof. exact recv_contiguous_refuted_deregister. Qed.
+  returned es = popped_frames es /\ cache_frames (snd st') = [].
+Proof. exact recv_contiguous_deregister_witness. Qed.
 
-(* DEALER / ROUTER (`frame_recv_buffer`), every queue discipline, every envelope function `process`: the same
-   statement holds as long as recv_multipart is never called while recv() is in the middle of a message (`no_mix`);
-   attach / detach / close do not matter here *)
+(* DEALER / ROUTER (`frame_recv_buffer`), every queue discipline, every envelope function `process`, EVERY history:
+   any mix of recv and recv_multipart, attach / detach / close meanwhile (repaired finding 2) *)
 Theorem C02_recv_contiguous_addressed : forall (Q : Type) (qo : qops Q) process os st st' es,
-  fbuf_run qo process os st = (st', es) -> no_mix qo process os st = true -> Forall (pgood process) es ->
+  fbuf_run qo process os st = (st', es) -> buf_inv (snd st) -> Forall (pgood process) es ->
   cache_frames (snd st) ++ processed_frames process es = returned es ++ cache_frames (snd st') /\ has_panic es = false.
 Proof. exact @fbuf_accounting. Qed.
-(* the failing class: recv() -> frame 1 of A, recv_multipart() -> B, recv() -> frame 2 of A *)
-Theorem C02_recv_contiguous_refuted_mixed :
+Theorem C02_recv_multipart_remainder_addressed : forall (Q : Type) (qo : qops Q) process (q : Q) (d : list frame),
+  d <> [] -> (length d <= 255)%nat ->
+  fbuf_recv_multipart qo process (q, Some d) = ((q, None), EvRet (RBatch d) None).
+Proof. exact @fbuf_recv_multipart_remainder. Qed.
+(* former witness: recv() -> frame 1 of A, recv_multipart() -> the rest of A (used to be B), recv() -> B *)
+Theorem C02_recv_contiguous_mixed_witness :
   let '(st', es) := fbuf_run rpq_ops (fun _ b => Ok b) wit_mixed (q_new, None) in
   processed_frames (fun _ b => Ok b) es = [fr true 10; fr true 11; fr false 12; fr false 20] /\
-  returned es = [fr true 10; fr false 20; fr true 11; fr false 12] /\
-  no_mix rpq_ops (fun _ b => Ok b) wit_mixed (q_new, None) = false.
-Proof. exact recv_contiguous_refuted_mixed. Qed.
+  returned es = processed_frames (fun _ b => Ok b) es.
+Proof. exact recv_contiguous_mixed_witness. Qed.
 
 (* REQ / REP recv(): a single-frame payload comes through; of a multi-frame payload only frame 1 (MORE still set) *)
 Theorem C02_reqrep_recv_single : forall f : frame,
@@ -76,18 +85,15 @@ Proof. exact reqrep_recv_truncates_refuted. Qed.
 (* whatever one send_multipart call hands to the connection is, at list level, the envelope function of the socket *)
 Theorem C02_send_sound : forall k v w, send_multipart_of k v = Ok (SRWire w) -> w = wire_of k v.
 Proof. exact send_sound. Qed.
-(* it carries MORE on all but the last frame - for PUSH / PUB / DEALER / REP whatever flags the application set,
-   for ROUTER when the application set MORE on every payload frame but the last *)
-Theorem C02_wire_is_one_message : forall k v w,
-  send_multipart_of k v = Ok (SRWire w) ->
-  (match k with SndRouter _ _ _ => more_ok (tl v) | _ => True end) ->
-  more_ok w.
+(* it carries MORE on all but the last frame, whatever flags the application left on the frames - every sender,
+   ROUTER included (repaired finding 4) *)
+Theorem C02_wire_is_one_message : forall k v w, send_multipart_of k v = Ok (SRWire w) -> more_ok w.
 Proof. exact wire_is_one_message. Qed.
-(* ROUTER only clears MORE on the last frame: [id, a, b] with flags unset leaves as two messages *)
-Theorem C02_wire_is_one_message_router_refuted :
+(* former witness: ROUTER send_multipart([id, a, b]) with MORE unset on a is one message on the wire *)
+Theorem C02_wire_is_one_message_router_witness :
   exists w, send_multipart_of (SndRouter false false (Some SDealer)) router_unnormalised_witness = Ok (SRWire w) /\
-            wire_split w = [[(true, [65]); (true, []); (false, [1])]; [(false, [2])]].
-Proof. exact wire_is_one_message_router_refuted. Qed.
+            wire_split w = [[(true, [65]); (true, []); (true, [1]); (false, [2])]].
+Proof. exact wire_is_one_message_router_witness. Qed.
 (* every frame the application passed is on the wire, in order, after the envelope frames *)
 Theorem C02_send_never_truncates : forall k v w,
   send_multipart_of k v = Ok (SRWire w) ->
@@ -182,12 +188,13 @@ Proof. exact inproc_whole_messages. Qed.
 Theorem C02_inproc_256_parts_refuted : inproc_run fb_new (repeat [fr true 7] 256) = Panic.
 Proof. exact inproc_256_parts_panic. Qed.
 
-(* non-vacuity: a history with two peers, mixed receive styles and a detach between messages satisfies the
+(* non-vacuity: a history with two peers, mixed receive styles and a detach in the middle of message A satisfies the
    hypotheses of C02_recv_contiguous and delivers both messages whole *)
 Example C02_example :
-  let os := [ORegister 1; ORegister 2; OEnqueue 0%nat msgA; OEnqueue 1%nat msgB; ORecv; ORecvMultipart;
-             ODeregister 2; ORecv; ORecv] in
+  let os := [ORegister 1; ORegister 2; OEnqueue 0%nat msgA; OEnqueue 1%nat msgB; ORecv; ODeregister 2;
+             ORecvMultipart; ORecv; ORecv] in
   let '(st', es) := anon_run rpq_ops os (q_new, None) in
-  no_drop rpq_ops os (q_new, None) = true /\ forallb (fun b => (0 <? length (fb_list b))%nat) (popped es) = true /\
+  forallb (fun o => match o with OClose => false | _ => true end) os = true /\
+  forallb (fun b => (0 <? length (fb_list b))%nat) (popped es) = true /\
   returned es = [fr true 10; fr true 11; fr false 12; fr false 20] /\ popped_frames es = returned es.
 Proof. vm_compute. auto. Qed.
